@@ -36,21 +36,27 @@ def execute_limited(mod, ns, scn, limit=SCENARIO_WALL_LIMIT_S):
     from dst import seams
 
     old = signal.signal(signal.SIGALRM, _on_alarm)
-    signal.setitimer(signal.ITIMER_REAL, limit)
     try:
-        return mod.execute(ns, scn), False
-    except ScenarioTimeout:
-        return None, True
-    except Exception:  # noqa: BLE001
-        # the scenario could not even be set up on this tree (e.g. a fluid constructor that now raises):
-        # inconclusive, reported in the evidence; the first few tracebacks go to stderr
-        global _ERR_SHOWN
-        if _ERR_SHOWN < 3:
-            _ERR_SHOWN += 1
-            import traceback
+        try:
+            signal.setitimer(signal.ITIMER_REAL, limit)
+            try:
+                return mod.execute(ns, scn), False
+            finally:
+                # disarm INSIDE the guarded region: if the alarm goes off while we are leaving, the exception
+                # it raises is still caught below instead of escaping into the worker loop
+                signal.setitimer(signal.ITIMER_REAL, 0)
+        except ScenarioTimeout:
+            return None, True
+        except Exception:  # noqa: BLE001
+            # the scenario could not even be set up on this tree (e.g. a fluid constructor that now raises):
+            # inconclusive, reported in the evidence; the first few tracebacks go to stderr
+            global _ERR_SHOWN
+            if _ERR_SHOWN < 3:
+                _ERR_SHOWN += 1
+                import traceback
 
-            traceback.print_exc()
-        return None, "error"
+                traceback.print_exc()
+            return None, "error"
     finally:
         signal.setitimer(signal.ITIMER_REAL, 0)
         signal.signal(signal.SIGALRM, old)
